@@ -2,15 +2,18 @@ from jstat.engine import *
 from jstat.rules.common import *
 from jstat.rules.stale import *
 from jstat.rules.validity import *
+from jstat.rules.c05 import identity_guards
+import sys
 tree=get_tree()
-ci=[c for c in tree.environment_classes() if c.name=='Connector'][0]
+name=sys.argv[1]
+ci=[c for c in tree.environment_classes() if c.name==name][0]
 ea=analyse_env(tree,ci); v=ea.vfg; sf=StepFlow(ea)
 m=[dict(flat_fields(v,o)).get('action_mask') for o in observation_leaves(ea,ea.step_ts)][0]
 mo=old_mask(ea,sf,m)
-print('mask_old:',txt(erase_action_index(mo,ea.action),9,1500))
-# step side validity: find cond preds inside new agents
-from jstat.rules.c05 import identity_guards
-for g in identity_guards(sf.new['agents'], sf.old['agents']):
-    print('guard:',txt(erase_action_index(g,ea.action),9,1500))
-    print(conj_forms(erase_action_index(g,ea.action)))
-print(conj_forms(erase_action_index(mo,ea.action)))
+em=erase_action_index(mo,ea.action)
+print('mask_old erased:',txt(em,7,900))
+A=conj_forms(em); print('A',A)
+for f in sf.fields:
+    for g in identity_guards(sf.new[f], sf.old[f]):
+        eg=erase_action_index(g,ea.action)
+        print('guard',f,':',txt(eg,7,600)); B=conj_forms(eg); print('B',B); print(compare(mo,g,ea.action))
